@@ -829,7 +829,7 @@ pub fn run_replay(args: &[String]) {
         cont: true,
         max_points: 0,
     };
-    let rec = Rec::new(&out, 20);
+    let rec = Rec::new(&out, 90);
     let mut d = Driver { rec: rec.clone(), rng: StdRng::seed_from_u64(7), suffix_salt: 7, cid: "w".into() };
     let text = std::fs::read_to_string(&input).unwrap();
     for (n, line) in text.lines().enumerate() {
@@ -989,7 +989,7 @@ pub fn run(args: &[String]) {
         cont,
         max_points,
     };
-    let rec = Rec::new(&out, 20);
+    let rec = Rec::new(&out, 90);
     let mut d = Driver {
         rec: rec.clone(),
         rng: StdRng::seed_from_u64(seed ^ 0x5eed),
